@@ -31,7 +31,7 @@ func init() {
 			"Each mutant is decrypted with xmlenc.Decrypt under a recover() sentinel (and wrapped in an unsigned Response through ParseXMLResponse). Non-trivial = mutant that parsed as XML and reached xmlenc.Decrypt; distinct by (base, mutation, key kind).",
 		Assumptions: []string{"typed-nil pointers are not key values", "CBC padding counts above the block size are a grey zone (no verdict)", "random CBC garbage may decrypt to some plaintext by chance: only panics and the listed must-reject classes are judged"},
 		FloorQuick:  5000,
-		FloorThor:   50000,
+		FloorThor:   20000,
 		Run:         runC11,
 		LevelText:   "Every length of cipher value up to 4 blocks+1 is enumerated for every algorithm, every GCM byte is tampered, and a grammar of structural mutations and key types is driven through the real Decrypt and the SP's pre-authentication decrypt path under a panic sentinel; must-reject classes (GCM tamper, zero padding, unaligned/short CBC, certificate mismatch) are judged by construction of the input. Held-on-observed.",
 		LevelNote:   "Trusts Go crypto and internal/refenc for producing valid bases; recover() sees ordinary panics, process-fatal errors are attributed through the per-case journal.",
